@@ -39,6 +39,17 @@ def infer_redirection(url, recursive=True):
         string: Redirected url or the original url if nothing was found.
     """
 
+    # NOTE: iterating rather than recursing, since a url can nest more
+    # redirections than the interpreter allows frames
+    if recursive:
+        while True:
+            target = infer_redirection(url, recursive=False)
+
+            if target == url:
+                return url
+
+            url = target
+
     redirection_split = REDIRECTION_DOMAINS_RE.split(url, 1)
 
     target = None
@@ -101,8 +112,5 @@ def infer_redirection(url, recursive=True):
 
     if target is None:
         return url
-
-    if recursive:
-        return infer_redirection(target, recursive=True)
 
     return target
